@@ -307,6 +307,15 @@ def run(c):
         c.coverage["oracle_vs_impl_calls"] = c.coverage.get("oracle_vs_impl_calls", 0) + sum(1 for p in progs for x in (p.get("calls") or []) if x.get("oracle"))
         c.coverage["inconclusive_model_runs"] = c.coverage.get("inconclusive_model_runs", 0) + inconclusive
         c.coverage["compile_errors"] = c.coverage.get("compile_errors", 0) + sum(1 for p in progs if p.get("compile_err"))
+        # the update sweeps (x = c op x, x = x op c, ... data.go updateProgram) must be accepted and run on every tuple
+        ups = [p for p in progs if (p.get("feat") or {}).get("data:update-sweep")]
+        if True:
+            bad = [p["i"] for p in ups if p.get("compile_err") or len(p.get("calls") or []) < 150
+                   or any(not x.get("oracle") for x in p["calls"])]
+            c.obligation("generator:update-sweeps-accepted-and-run:%s" % tag, len(ups) == 4 and not bad,
+                         "update sweep programs: %d (want 4), rejected / not fully run: %s; first error: %s" % (
+                             len(ups), bad, next((p.get("compile_err") for p in ups if p.get("compile_err")), "")))
+        c.coverage["update_sweep_calls"] = c.coverage.get("update_sweep_calls", 0) + sum(len(p.get("calls") or []) for p in ups)
         hs = [p for p in progs if p["k"] == "hist"]
         c.coverage["histories"] = c.coverage.get("histories", 0) + len(hs)
         c.coverage["history_units"] = c.coverage.get("history_units", 0) + sum(len(h["units"]) for h in hs)
@@ -369,7 +378,7 @@ def run(c):
     dsl_differential(c.seed, 4 if not thorough else 24, "main")
 
     n = 120 if not thorough else 1500
-    progs, summ = observe(n, c.seed, "logic", corpus=True, hist=40 if not thorough else 400, data=47 if not thorough else 507)
+    progs, summ = observe(n, c.seed, "logic", corpus=True, hist=40 if not thorough else 400, data=51 if not thorough else 511)
     compare(progs, summ, "main")
 
     def search():
